@@ -1,5 +1,6 @@
 import CuqiVerif.Model.Proto
 import CuqiVerif.Model.C13
+import CuqiVerif.Model.C13_state
 open CuqiVerif CuqiVerif.Proto CuqiVerif.C13
 
 /-! Line-protocol driver for the C13 model.  Arrays travel as two tokens `shape data`
@@ -76,7 +77,73 @@ def runCArr (g : Geom) : CArr → List String → List String
 
 def arrEq (x y : Arr) : Bool := x.shape = y.shape && x.toList = y.toList
 
+/-! ### object histories (`Model/C13_state.lean`): ops are `;`-separated, fields `:`-separated -/
+
+def parseOptNat (s : String) : Option (Option Nat) :=
+  if s = "-" then some none else s.toNat?.map some
+
+def fmtOptVec : Option (List Rat) → String → String
+  | some l, _ => fmtVec l
+  | none, d => d
+
+/-- `g:N|-`, `c`, `ci`, `s`, `p:shape:data`, `f:fshape:dshape:ddata` -/
+def runKL : KLObj → List String → Option (List String)
+  | _, [] => some []
+  | o, op :: ops => do
+    let (out, o') ← (match op.splitOn ":" with
+      | ["g", n] => do let g ← parseOptNat n; some ("ok", o.setGrid g)
+      | ["c"] => let r := o.getCoefs; some (fmtOptVec r.1 "None", r.2)
+      | ["ci"] => let r := o.getCoefsInv; some (fmtOptVec r.1 "raise", r.2)
+      | ["s"] => some (s!"m={o.m} fun={match o.grid with | some n => toString n | none => "None"}", o)
+      | ["p", sh, da] => do
+          let x ← parseArr sh da
+          let r := o.par2funPre x
+          some ((match r.1 with | some y => fmtArr y | none => "raise"), r.2)
+      | ["f", fsh, dsh, dda] => do
+          let fs ← parseNatList fsh
+          let d ← parseArr dsh dda
+          let r := o.fun2parPost fs d
+          some ((match r.1 with | some y => fmtArr y | none => "raise"), r.2)
+      | _ => none)
+    let rest ← runKL o' ops
+    some (out :: rest)
+
+/-- `g:grid`, `s`, `p:shape:data`, `f:shape:data` -/
+def runStepObj : StepObj → List String → Option (List String)
+  | _, [] => some []
+  | o, op :: ops => do
+    let (out, o') ← (match op.splitOn ":" with
+      | ["g", g] => do let g ← parseVec g; some ("ok", o.setGrid g)
+      | ["s"] => some (s!"par={fmtNatList o.parShape} fun={fmtNatList o.funShape}", o)
+      | ["p", sh, da] => do
+          let x ← parseArr sh da
+          some ((match o.par2fun x with | some y => fmtArr y | none => "raise"), o)
+      | ["f", sh, da] => do
+          let x ← parseArr sh da
+          some ((match o.fun2par x with | .ok y => fmtArr y | .error e => e), o)
+      | _ => none)
+    let rest ← runStepObj o' ops
+    some (out :: rest)
+
 def step : List String → String
+  | ["klhist", cs, τ, nm, n0, ops] =>
+    match parseVec cs, parseRat τ, parseOptNat nm, parseOptNat n0 with
+    | some c, some τ, some nm, some n0 =>
+      if τ = 0 then "bad-op" else
+      match runKL (KLObj.init n0 nm (lget c) τ) (ops.splitOn ";") with
+      | some outs => " # ".intercalate outs
+      | none => "bad-op"
+    | _, _, _, _ => "bad-op"
+  | ["stephist", grid, bounds, s, pr, ops] =>
+    match parseVec grid, (if bounds = "-" then some none else (parseVec bounds).map some), s.toNat? with
+    | some g, some bs, some s =>
+      match StepObj.init? g bs s (projOfString pr) with
+      | none => "err"
+      | some o =>
+        match runStepObj o (ops.splitOn ";") with
+        | some outs => " # ".intercalate outs
+        | none => "bad-op"
+    | _, _, _ => "bad-op"
   | ["shapes", gs] =>
     match parseGeom gs with
     | some (g, true) =>
